@@ -71,6 +71,11 @@ pub fn net_of_fee(amount: u64, rate: u32) -> BigUint {
 
 /// Position token amounts (price based, tick free): A over [clamp(p), pu], B over [pl, clamp(p)].
 pub fn position_amounts(l: u128, p: u128, pl: u128, pu: u128, up: bool) -> (BigUint, BigUint) {
+    // a range with its bounds in the wrong order exists only where a program defect admitted it: it covers nothing and is worth nothing
+    // (the checks that own the range rules report it; this function must not take the process down first)
+    if pl >= pu {
+        return (BigUint::from(0u8), BigUint::from(0u8));
+    }
     let pc = p.clamp(pl, pu);
     (amt_a(l, pc, pu, up), amt_b(l, pl, pc, up))
 }
@@ -84,6 +89,9 @@ pub fn owed_delta(l: u128, growth_delta: u128) -> BigUint {
 /// a liquidity whose exact (unrounded) amount of one token lies in [target, target + 1): the inverse of the
 /// cost function, so that the rounded amounts land on chosen boundaries of the u64 result type
 pub fn liquidity_for_amount(p: u128, pl: u128, pu: u128, token_a: bool, target: u128, frac: u32) -> Option<u128> {
+    if pl >= pu {
+        return None;
+    }
     let pc = p.clamp(pl, pu);
     let t = (b(target) << 32u32) + BigUint::from(frac);
     let l = if token_a {
